@@ -84,7 +84,10 @@ func report(sum *vh.Summary, h *hist) {
 	sum.Fail("node tree / pool oracle failed: "+what, c, map[string]interface{}{"failed_after_op_index": at, "shrunk_from_ops": len(h.ops)})
 }
 
-func finishHist(sum *vh.Summary, cw *vh.CaseWriter, h *hist, src string) {
+// finishHist records one evaluated history; toModel says whether it is also written out as a
+// Coq case (elaborating the case terms is what costs time, so the quick tier sends a sample of
+// the histories to the model while the oracle on the implementation sees all of them).
+func finishHist(sum *vh.Summary, cw *vh.CaseWriter, h *hist, src string, toModel bool) {
 	c := histCase{Caching: h.caching, Ops: h.ops}
 	canon, _ := json.Marshal(c)
 	sum.Count(string(canon), h.reused)
@@ -102,7 +105,10 @@ func finishHist(sum *vh.Summary, cw *vh.CaseWriter, h *hist, src string) {
 	if h.fail != "" {
 		report(sum, h)
 	}
-	cw.Add(h.coqCase(), map[string]interface{}{"kind": "history", "case": c})
+	if toModel || h.fail != "" {
+		sum.Hist("history-sent-to-model")
+		cw.Add(h.coqCase(), map[string]interface{}{"kind": "history", "case": c})
+	}
 }
 
 // ---- trees handed out by the seven readers ------------------------------------------------------
@@ -271,7 +277,7 @@ func main() {
 			"plus trees handed out by the seven readers; non-trivial = the history contains a removal followed by a creation that got a pooled node back; "+
 			"distinct by (pooling, operation list)")
 	cw := vh.NewCaseWriter(o, "C12", "Base.Tree Model.Heap", "c12case", "check_case")
-	cw.PerFile = 50 // elaborating the case terms dominates; small shards keep all cores busy
+	cw.PerFile = 100 // elaborating the case terms dominates the cost of a shard
 
 	// ---- racing acquisitions: 16 goroutines ----
 	runRace := func() {
@@ -300,19 +306,23 @@ func main() {
 	}
 	replay, corpus := loadCases(o)
 	for _, c := range corpus {
-		finishHist(sum, cw, runCase(c, r), "corpus")
+		finishHist(sum, cw, runCase(c, r), "corpus", true)
 	}
 	if len(replay) > 0 {
 		for _, c := range replay {
 			h := runCase(c, r)
 			fmt.Printf("replay: %d ops executed, pooling=%v\nforest at end: %s\noracle: %q (after op %d)\n", len(h.ops), c.Caching, h.coqForest(), h.fail, h.failOp)
-			finishHist(sum, cw, h, "replay")
+			finishHist(sum, cw, h, "replay", true)
 		}
 	} else {
-		total := o.Count(700, 40000)
+		total := o.Count(4000, 200000)
+		modelled := 450
+		if o.Tier == "thorough" {
+			modelled = 20000
+		}
 		for c := 0; c < total; c++ {
 			caching := !r.Chance(0.15)
-			finishHist(sum, cw, genHistory(r, caching, 80), "generated")
+			finishHist(sum, cw, genHistory(r, caching, 80), "generated", c < modelled)
 		}
 		readerTrees(r, sum, cw, o.Count(12, 400))
 		runRace()
